@@ -17,7 +17,9 @@
 
    conc    input    (1 nw cap ncalls ...)   (submissions from many goroutines, Shutdown from another one)
            observed ((status ...) (early ...) (runs ...) (endedbefore ...)
-                     (alive shutret inconclusive maxinflight workergoroutines orderok shutpending))
+                     (alive shutret inconclusive maxinflight workergoroutines orderok shutpending
+                      taskstartedaftershutdownreturned shutdownpanicked))
+                    status 8 = the call ended in a runtime panic (send on closed channel, WaitGroup misuse)
            No schedule is observable: only the property (the conclusions of the theorems) is evaluated. *)
 From Coq Require Import ZArith List Bool Arith.
 From FV Require Import Lib.Sx C18.Model.
@@ -218,6 +220,7 @@ Definition walk_one (n n_order c : nat) (o : op) (b : snap) (prev : option snap)
   (* run at most once, only submitted tasks, ended only after started *)
   vjoin (check_that (nodup_b (started b) && nodup_b (ended b) && subset (ended b) (started b)
                      && forallb (fun t => Nat.ltb t (length (statuses b))) (started b)) (VPropFail 2))
+ (vjoin (check_that (negb (mem 8 (statuses b))) (VPropFail 9))
  (vjoin (check_that (negb before_shutdown || p_returns n c b) (VPropFail 1))
  (vjoin (check_that (negb before_shutdown || negb (mem 2 (statuses b) || mem 3 (statuses b))) (VPropFail 6))
  (vjoin (check_that (negb (before_shutdown && seen) || mem 4 (statuses b) || Nat.eqb (alive b) n) (VPropFail 4))
@@ -237,7 +240,7 @@ Definition walk_one (n n_order c : nat) (o : op) (b : snap) (prev : option snap)
            yet the Shutdown that won has not returned: nothing can ever move again *)
         (check_that (before_shutdown || returned b || negb (subset (started b) (ended b))
                      || mem 6 (statuses b) || mem 2 (shuts b)   (* the harness itself holds a goroutine *)
-                    ) (VPropFail 7))))))))).
+                    ) (VPropFail 7)))))))))).
 
 Fixpoint prop_walk (n n_order c : nat) (ops : list op) (obs : list snap) (prev : option snap)
          (acc : option (list nat * nat)) (nsh : nat) (seen : bool) : verdict :=
@@ -273,23 +276,27 @@ Fixpoint zip3_all (f : nat -> nat -> nat -> bool) (a b c : list nat) : bool :=
   end.
 
 Definition check_conc (n : nat) (st_ early runs endedb : list nat)
-           (alive_ shutret inconclusive maxinf nworkers orderok shutpending : nat) : verdict :=
+           (alive_ shutret inconclusive maxinf nworkers orderok shutpending latestarts shutpanic : nat) : verdict :=
   if Nat.eqb inconclusive 1 then VOk else
   vjoin (check_that (forallb (fun r => Nat.leb r 1) runs) (VPropFail 2))
  (vjoin (check_that (negb (mem 4 st_)) (VPropFail 1))
+ (vjoin (* Execute returns: no call is still parked on the queue once Shutdown has returned *)
+        (check_that (negb (Nat.eqb shutret 1) || negb (mem 0 st_)) (VPropFail 1))
+ (vjoin (* no call ends in a runtime panic (send on closed channel, WaitGroup misuse ...) *)
+        (check_that (negb (mem 8 st_) && Nat.eqb shutpanic 0) (VPropFail 9))
  (vjoin (* a call that came back before Shutdown was invoked came back with nil *)
         (check_that (zip3_all (fun e x _ => negb (Nat.eqb e 1) || Nat.eqb x 1) early st_ runs) (VPropFail 6))
- (vjoin (* accepted before shutdown began => ran exactly once, before Shutdown returned *)
+ (vjoin (* EVERY Execute that returned nil => its task ran exactly once, before Shutdown returned *)
         (check_that (negb (Nat.eqb shutret 1)
-                     || zip3_all (fun e r b => negb (Nat.eqb e 1) || (Nat.eqb r 1 && Nat.eqb b 1))
-                                 early runs endedb) (VPropFail 2))
- (vjoin (check_that (negb (Nat.eqb shutret 1) || Nat.eqb alive_ 0) (VPropFail 5))
+                     || zip3_all (fun x r b => negb (Nat.eqb x 1) || (Nat.eqb r 1 && Nat.eqb b 1))
+                                 st_ runs endedb) (VPropFail 2))
+ (vjoin (check_that (negb (Nat.eqb shutret 1) || (Nat.eqb alive_ 0 && Nat.eqb latestarts 0)) (VPropFail 5))
  (vjoin (* never more tasks in flight than workers, never more goroutines running tasks than workers *)
         (check_that (Nat.leb maxinf n && Nat.leb nworkers n) (VPropFail 8))
  (vjoin (* one worker: each submitter's tasks start in the order it submitted them *)
         (check_that (negb (Nat.eqb n 1) || Nat.eqb orderok 1) (VPropFail 3))
         (* Shutdown of a running executor parked for good (all goroutines parked, tasks cannot block) *)
-        (check_that (negb (Nat.eqb shutpending 1)) (VPropFail 7)))))))).
+        (check_that (negb (Nat.eqb shutpending 1)) (VPropFail 7)))))))))).
 
 Definition check (c : sx) : verdict :=
   match c with
@@ -306,8 +313,8 @@ Definition check (c : sx) : verdict :=
       end
   | SList [SList (SInt 1%Z :: n :: _); SList [a; b; c'; d; SList rest]] =>
       match nat_of n, nats_of a, nats_of b, nats_of c', nats_of d, map_opt nat_of rest with
-      | Some n, Some a, Some b, Some c', Some d, Some [e; f; g; h; i; j; k] =>
-          check_conc (Nat.max 1 n) a b c' d e f g h i j k
+      | Some n, Some a, Some b, Some c', Some d, Some [e; f; g; h; i; j; k; l; m] =>
+          check_conc (Nat.max 1 n) a b c' d e f g h i j k l m
       | _, _, _, _, _, _ => VBad
       end
   | _ => VBad
